@@ -19,9 +19,7 @@ import (
 	"errors"
 	"fmt"
 	"io"
-	"os"
 	"reflect"
-	"runtime/pprof"
 	"sort"
 	"strings"
 	"sync"
@@ -55,11 +53,6 @@ import (
 func TestVerifSim(t *testing.T) {
 	// the code under test logs every parse failure: keep the workers quiet
 	klog.SetLogger(logr.Discard())
-	if pf := os.Getenv("NS_PROF"); pf != "" {
-		f, _ := os.Create(fmt.Sprintf("%s.%d", pf, os.Getpid()))
-		_ = pprof.StartCPUProfile(f)
-		defer pprof.StopCPUProfile()
-	}
 	sim.Main(t, &nsEngine{})
 }
 
@@ -964,8 +957,9 @@ func (nsEngine) Execute(r *sim.Run) {
 	for _, op := range ops {
 		op := op
 		s.apply(&op)
-		if s.cfg.Lag && r.Flip(0.6) {
-			n := 1 + r.Choose(6)
+		if s.cfg.Lag && r.Flip(0.7) {
+			// the controller lags behind the API: only some (possibly none) of the pending deliveries / reconciles happen now
+			n := r.Choose(6)
 			for i := 0; i < n && s.step(); i++ {
 			}
 		} else {
@@ -1238,6 +1232,7 @@ func (s *nsSim) apply(op *nsOp) {
 		r.Sample("tamper %s %s", op.N, op.How)
 	case "restart":
 		s.startController()
+		s.checkAllNodes("restart")
 		r.Probe("restart")
 		r.Event("op restart")
 		r.Sample("restart")
@@ -1375,6 +1370,10 @@ func (s *nsSim) deliverNode() {
 		s.nodeH.Delete(s.ctx, event.TypedDeleteEvent[client.Object]{Object: ev.obj}, s.q)
 	}
 	r.Event("deliver node %s %s queue=%d", ev.kind, ev.obj.GetName(), s.q.Len())
+	// the spec computed for the node as the controller's cache now shows it (labels may have changed)
+	if n := s.nodes[ev.obj.GetName()]; n != nil {
+		s.checkNode("node-"+ev.kind, n)
+	}
 }
 
 // deliverSLO models the controller's own NodeSLO watch (EnqueueRequestForObject behind GenerationChangedPredicate).
@@ -1428,7 +1427,18 @@ func (s *nsSim) drain(final bool) {
 		limit = len(s.cmEv) + len(s.nodeEv) + len(s.sloEv) + s.q.Len() + 4*(len(s.nodes)+len(s.sloEv)+4) + 20
 	}
 	n := 0
-	for ; n < limit && s.step(); n++ {
+	for round := 0; round < 3; round++ {
+		for ; n < limit && s.step(); n++ {
+		}
+		if !final || n >= limit {
+			break
+		}
+		// let simulated time pass: anything the controller scheduled for later (a delayed retry) happens now
+		time.Sleep(time.Minute)
+		if len(s.cmEv)+len(s.nodeEv)+len(s.sloEv)+s.q.Len() == 0 {
+			break
+		}
+		r.Probe("work-after-idle-time")
 	}
 	if len(s.cmEv)+len(s.nodeEv)+len(s.sloEv)+s.q.Len() > 0 {
 		if final {
@@ -1726,13 +1736,17 @@ func nsNumStr(v any) (string, bool) {
 	return "", false
 }
 
-// nsDiff returns the first path (sorted order) at which exp and got differ, "" when equal.
+// nsDiff returns the first path (sorted order) at which exp and got differ ("/" = the section as a whole), "" when equal.
 func nsDiff(exp, got any, path string) string {
+	here := path
+	if here == "" {
+		here = "/"
+	}
 	switch e := exp.(type) {
 	case map[string]any:
 		g, ok := got.(map[string]any)
 		if !ok {
-			return path
+			return here
 		}
 		keys := map[string]bool{}
 		for k := range e {
@@ -1760,7 +1774,7 @@ func nsDiff(exp, got any, path string) string {
 	case []any:
 		g, ok := got.([]any)
 		if !ok || len(g) != len(e) {
-			return path
+			return here
 		}
 		for i := range e {
 			if d := nsDiff(e[i], g[i], fmt.Sprintf("%s[%d]", path, i)); d != "" {
@@ -1770,7 +1784,7 @@ func nsDiff(exp, got any, path string) string {
 		return ""
 	case nil:
 		if got != nil {
-			return path
+			return here
 		}
 		return ""
 	}
@@ -1778,10 +1792,10 @@ func nsDiff(exp, got any, path string) string {
 		if gs, ok := nsNumStr(got); ok && gs == es {
 			return ""
 		}
-		return path
+		return here
 	}
 	if exp != got {
-		return path
+		return here
 	}
 	return ""
 }
@@ -1894,20 +1908,24 @@ func (s *nsSim) compareSpec(oracle, where, node string, labels map[string]string
 	}
 }
 
+// checkNode: the spec computed by the real getNodeSLOSpec for one node is what the model says.
+func (s *nsSim) checkNode(where string, n *corev1.Node) []byte {
+	spec, err := s.rec.getNodeSLOSpec(n, nil)
+	s.r.OracleEval()
+	if err != nil || spec == nil {
+		s.fail("layering", "error", "%s: getNodeSLOSpec(%s) failed: %v", where, n.Name, err)
+		return nil
+	}
+	s.compareSpec("layering", where, n.Name, n.Labels, spec)
+	b, _ := json.Marshal(spec)
+	return b
+}
+
 // checkAllNodes: after an event, the spec computed by the real getNodeSLOSpec for every node is what the model says.
 func (s *nsSim) checkAllNodes(where string) {
 	h := uint64(0)
 	for _, name := range s.nodeNames() {
-		n := s.nodes[name]
-		spec, err := s.rec.getNodeSLOSpec(n, nil)
-		s.r.OracleEval()
-		if err != nil || spec == nil {
-			s.fail("layering", "error", "%s: getNodeSLOSpec(%s) failed: %v", where, name, err)
-			continue
-		}
-		s.compareSpec("layering", where, name, n.Labels, spec)
-		b, _ := json.Marshal(spec)
-		h = sim.Mix(h, sim.HashString(name+string(b)))
+		h = sim.Mix(h, sim.HashString(name+string(s.checkNode(where, s.nodes[name]))))
 	}
 	s.r.Event("specs %s %016x", where, h)
 }
